@@ -143,6 +143,53 @@ fn check_bare_record(c: i32) -> Result<(), Fail> {
     }
 }
 
+/// A record carrying code c read as each of the 13 CONCRETE types (the typed decoder has its own type check).
+fn check_typed_record(contents: &BTreeMap<i32, Vec<u8>>, scratch: &mut Vec<u8>, c: i32) -> Result<(), Fail> {
+    struct T<'a>(&'a [u8], i32);
+    impl KindFn for T<'_> {
+        type Out = Result<(), Fail>;
+        fn call<K: Kind>(self) -> Self::Out
+        where
+            Error: From<<K as TryFrom<Shape>>::Error>,
+        {
+            let (bytes, c) = (self.0, self.1);
+            let mut cur = Cursor::new(bytes);
+            let r = <K as ReadableShape>::read_from(&mut cur, bytes.len() as i32);
+            match (Ty::from_code(c), r) {
+                (None, Err(Error::InvalidShapeType(x))) if x == c => Ok(()),
+                (None, Err(e)) => Err(Fail::new("wrong-error", format!("record with code {} read as {}: error {:?}, expected InvalidShapeType({})", c, K::TY.name(), e, c))),
+                (None, Ok(_)) => Err(Fail::new("invalid-record-accepted", format!("record with invalid code {} ({:#x}) is decoded as a {}", c, c, K::TY.name()))),
+                (Some(t), Ok(_)) => {
+                    if t == K::TY {
+                        Ok(())
+                    } else {
+                        Err(Fail::new("record-type", format!("record with code {} ({}) is decoded as a {}", c, t.name(), K::TY.name())))
+                    }
+                }
+                (Some(t), Err(Error::MismatchShapeType { requested, actual })) => {
+                    if t != K::TY && ty_of(requested) == K::TY && ty_of(actual) == t {
+                        Ok(())
+                    } else {
+                        Err(Fail::new("wrong-error", format!("record with code {} ({}) read as {}: MismatchShapeType{{{:?}, {:?}}}", c, t.name(), K::TY.name(), requested, actual)))
+                    }
+                }
+                (Some(t), Err(e)) => Err(Fail::new("wrong-error", format!("record with code {} ({}) read as {}: {:?}", c, t.name(), K::TY.name(), e))),
+            }
+        }
+    }
+    let bytes: &[u8] = match contents.get(&c) {
+        Some(b) => &b[..],
+        None => {
+            scratch[0..4].copy_from_slice(&c.to_le_bytes());
+            &scratch[..]
+        }
+    };
+    for k in ALL13 {
+        dispatch(k, T(bytes, c))?;
+    }
+    Ok(())
+}
+
 /// Whole-file path for one code: header type c and a record of type c through ShapeReader.
 fn check_reader(c: i32) -> Result<(), Fail> {
     let t = Ty::from_code(c);
@@ -216,6 +263,7 @@ fn check_all_paths(c: i32) -> Result<(), Fail> {
     let mut scratch = vec![0u8; 20];
     check_record(&contents, &mut scratch, c)?;
     check_bare_record(c)?;
+    check_typed_record(&contents, &mut scratch, c)?;
     check_header_variants(c)?;
     check_reader(c)
 }
@@ -256,14 +304,19 @@ impl SubCheck for CodeTable {
                             if let Err(f) = check_from(std::hint::black_box(c)) {
                                 return (n_from, n_file, n_int, Some((c, f)));
                             }
-                            let small = (-(1 << 17)..=(1 << 17)).contains(&c);
+                            // |c| <= 2^17, and every code whose bits 16..=28 are zero (any combination of the three top bits x low 16 bits)
+                            let small = (-(1 << 17)..=(1 << 17)).contains(&c) || (c as u32 & 0x1FFF_0000) == 0;
                             let is_int = iset.contains(&c);
                             if is_int {
                                 n_int += 1;
                             }
                             if full_files || small || is_int {
                                 n_file += 2;
-                                if let Err(f) = check_header(&mut hdr, c).and_then(|_| check_record(&contents, &mut scratch, c)).and_then(|_| check_bare_record(c)) {
+                                if let Err(f) = check_header(&mut hdr, c)
+                                    .and_then(|_| check_record(&contents, &mut scratch, c))
+                                    .and_then(|_| check_bare_record(c))
+                                    .and_then(|_| check_typed_record(&contents, &mut scratch, c))
+                                {
                                     return (n_from, n_file, n_int, Some((c, f)));
                                 }
                             }
@@ -291,7 +344,7 @@ impl SubCheck for CodeTable {
             name: "codetable".into(),
             rule: "exhaustive: ShapeType::from(c) for all 2^32 codes c against an independent table (Some exactly for the 14 ESRI codes, \
                    `as i32` returns c, has_z/has_m/is_multipart/Display per table); file path (Header::read_from; Shape::read_from with the code in a full record and in a record \
-                   that consists of the type code alone) exhaustive in thorough, in quick for |c|<=2^17, all single-bit/byte-swapped/+-1,2 neighbours of \
+                   that consists of the type code alone) exhaustive in thorough, in quick for |c|<=2^17 and for every code whose bits 16..28 are zero (all top-3-bit combinations x low 16 bits), there also read as each of the 13 concrete types, all single-bit/byte-swapped/+-1,2 neighbours of \
                    the 14 codes and 4M generated codes; ShapeReader path for all neighbour codes. Non-trivial: the 14 valid codes and \
                    their neighbours (single bit flip, byte swap, +-1, +-2, negation, +2^8k), counted as visited"
                 .into(),
